@@ -154,7 +154,17 @@ func genNum(r *hx.Rng, d int) *ast {
 	if d <= 0 || r.Chance(1, 5) {
 		return atom(hx.Pick(r, numAtoms))
 	}
-	switch r.Intn(12) {
+	switch r.Intn(14) {
+	case 12: // a comparison / logical result used as a number
+		if r.Bool() {
+			return bin(hx.Pick(r, arith), paren(genBool(r, d-1)), genNum(r, d-1))
+		}
+		return bin(hx.Pick(r, arith), genNum(r, d-1), paren(genBool(r, d-1)))
+	case 13:
+		if r.Bool() {
+			return call(hx.Pick(r, fnN), genBool(r, d-1), genNum(r, d-1))
+		}
+		return un(hx.Pick(r, signs), paren(genBool(r, d-1)))
 	case 0, 1, 2, 3, 4:
 		return bin(hx.Pick(r, arith), genNum(r, d-1), genNum(r, d-1))
 	case 5: // chain of equal precedence, left-nested or right-nested
